@@ -21,6 +21,7 @@ def resistance_bracket(z, Kz, lv):
 
 def body(run, sym, sc):
     sp = sym.sp
+    akw = dict(analytic=True) if sc.get("analytic") else {}
     ny, nx = sc["ny"], sc["nx"]
     N = ny * nx
     z, prof = kindl.profiles(sc["pid"], sc["n"], seed=sc["seed"])
@@ -29,7 +30,7 @@ def body(run, sym, sc):
     sc0 = dict(sc, halo=0.0)
     nl = len(sc["levels"])
     # (a), (b): whole periodic domain observed with halo = 0
-    g, c, f = kindl.sym_solve(sym, sc0, q, srf_bg_conc=bg)
+    g, c, f = kindl.sym_solve(sym, sc0, q, srf_bg_conc=bg, **akw)
     c, f = kindl.lv3(c, sc), kindl.lv3(f, sc)
     meanq = np.sum(q) / N
     lhs = np.array([np.sum(f[k]) / N for k in range(nl)], dtype=object)
@@ -79,7 +80,7 @@ def body(run, sym, sc):
         run.queries["unsat"] += 1
     # (c) footprint weights sum to one for a continuous tower position
     xm, ym = sym.var("xm"), sym.var("ym")
-    g, cf, ff = kindl.sym_solve(sym, sc0, q, footprint=True, meas_pt=(xm, ym))
+    g, cf, ff = kindl.sym_solve(sym, sc0, q, footprint=True, meas_pt=(xm, ym), **akw)
     ff = kindl.lv3(ff, sc)
     lhs = np.array([np.sum(ff[k]) for k in range(nl)], dtype=object)
     rhs = np.array([1.0 + 0 * xm for k in range(nl)], dtype=object)
@@ -90,10 +91,10 @@ def body(run, sym, sc):
     # (d) halo == explicit padding + crop
     if sc["halo"] != 0.0:
         nxe, nye, px, py = kindl.padded(sc)
-        g, c1, f1 = kindl.sym_solve(sym, sc, q, srf_bg_conc=bg)
+        g, c1, f1 = kindl.sym_solve(sym, sc, q, srf_bg_conc=bg, **akw)
         qp = np.pad(q, ((py, py), (px, px)), mode="constant", constant_values=0.0).view(af.SymArr)
         scp = dict(sc, halo=0.0, ny=nye, nx=nxe)
-        g, c2, f2 = kindl.sym_solve(sym, scp, qp, srf_bg_conc=bg)
+        g, c2, f2 = kindl.sym_solve(sym, scp, qp, srf_bg_conc=bg, **akw)
         c1, f1 = kindl.lv3(c1, sc), kindl.lv3(f1, sc)
         c2 = kindl.lv3(c2, scp, (nye, nxe))[:, py:nye - py, px:nxe - px]
         f2 = kindl.lv3(f2, scp, (nye, nxe))[:, py:nye - py, px:nxe - px]
@@ -102,8 +103,8 @@ def body(run, sym, sc):
             vals = kindl.forms_equal(run, sp, a, b, name, scn)
             if vals is not None:
                 run.cex.append(dict(scenario=scn, obligation=name, q=kindl.field_from_model(vals, (ny, nx)).tolist(), bg=vals.get("bg", 0.0)))
-        g, c1, f1 = kindl.sym_solve(sym, sc, q, footprint=True, meas_pt=(xm, ym))
-        g, c2, f2 = kindl.sym_solve(sym, scp, qp, footprint=True, meas_pt=(xm + px * sc["dx"], ym + py * sc["dy"]))
+        g, c1, f1 = kindl.sym_solve(sym, sc, q, footprint=True, meas_pt=(xm, ym), **akw)
+        g, c2, f2 = kindl.sym_solve(sym, scp, qp, footprint=True, meas_pt=(xm + px * sc["dx"], ym + py * sc["dy"]), **akw)
         c1, f1 = kindl.lv3(c1, sc), kindl.lv3(f1, sc)
         c2 = kindl.lv3(c2, scp, (nye, nxe))[:, py:nye - py, px:nxe - px]
         f2 = kindl.lv3(f2, scp, (nye, nxe))[:, py:nye - py, px:nxe - px]
@@ -126,6 +127,7 @@ def _positions(sc):
 
 def replay(rec):
     sc = rec["scenario"]
+    akw = dict(analytic=True) if sc.get("analytic") else {}
     ob = rec["obligation"]
     ny, nx = (sc["ny"], sc["nx"])
     prec = sc["precision"]
@@ -137,15 +139,15 @@ def replay(rec):
     out = {"obligation": ob}
     worst = 0.0
     if ob == "mean_flux_conserved":
-        g, c, f = kindl.real_solve(sc, q, srf_bg_conc=bg)
+        g, c, f = kindl.real_solve(sc, q, srf_bg_conc=bg, **akw)
         f = kindl.lv3(f, sc)
         m = [float(f[k].mean()) for k in range(len(sc["levels"]))]
         worst = max(abs(v - q.mean()) for v in m) / max(abs(q).max(), 1e-300)
         out.update(mean_flux=m, mean_source=float(q.mean()))
     elif ob == "mean_conc_resistance":
-        g, c, f = kindl.real_solve(sc, q, srf_bg_conc=bg)
+        g, c, f = kindl.real_solve(sc, q, srf_bg_conc=bg, **akw)
         c = kindl.lv3(c, sc)
-        g, c2, f2 = kindl.real_solve(sc, q, srf_bg_conc=bg + 1.0)
+        g, c2, f2 = kindl.real_solve(sc, q, srf_bg_conc=bg + 1.0, **akw)
         c2 = kindl.lv3(c2, sc)
         R = {0: 0.0}
         for k, lv in enumerate(sc["levels"]):
@@ -160,7 +162,7 @@ def replay(rec):
     elif ob == "footprint_sums_to_one":
         sums = []
         for pos in _positions(sc):
-            g, c, f = kindl.real_solve(sc, q, footprint=True, meas_pt=pos)
+            g, c, f = kindl.real_solve(sc, q, footprint=True, meas_pt=pos, **akw)
             sums.append([float(s.sum()) for s in kindl.lv3(f, sc)])
         out.update(sums=sums)
         worst = float(np.abs(np.array(sums) - 1.0).max())
@@ -172,8 +174,8 @@ def replay(rec):
         for pos in (_positions(sc) if fp else [(0.0, 0.0)]):
             kw1 = dict(footprint=True, meas_pt=pos) if fp else dict(srf_bg_conc=bg)
             kw2 = dict(footprint=True, meas_pt=(pos[0] + px * sc["dx"], pos[1] + py * sc["dy"])) if fp else dict(srf_bg_conc=bg)
-            g, c1, f1 = kindl.real_solve(sc, q, **kw1)
-            g, c2, f2 = kindl.real_solve(scp, qp, **kw2)
+            g, c1, f1 = kindl.real_solve(sc, q, **kw1, **akw)
+            g, c2, f2 = kindl.real_solve(scp, qp, **kw2, **akw)
             c1, f1 = kindl.lv3(c1, sc), kindl.lv3(f1, sc)
             c2 = kindl.lv3(c2, scp, (nye, nxe))[:, py:nye - py, px:nxe - px]
             f2 = kindl.lv3(f2, scp, (nye, nxe))[:, py:nye - py, px:nxe - px]
@@ -215,7 +217,10 @@ def main(run):
     ]
     kindl.validate_encoding(run)
     scs = kindl.base_scenarios(run.tier, run.seed)
-    run.bounds = dict(grids=sorted({(s["ny"], s["nx"]) for s in scs}), profiles=sorted({s["pid"] for s in scs}),
+    # the closed-form (analytic) path obeys the same conservation laws: uniform profiles P1
+    ana = [dict(s_, pid="P1", analytic=True) for s_ in scs if s_["pid"] in ("P1", "P2")]
+    scs = scs + ana
+    run.bounds = dict(analytic_scenarios=len(ana), grids=sorted({(s["ny"], s["nx"]) for s in scs}), profiles=sorted({s["pid"] for s in scs}),
                       layers=sorted({s["n"] for s in scs}), scenarios=len(scs),
                       outside="grids > 8x8, > 9 layers, other profile families, rounding")
     cex = run.pmap(worker, scs)
